@@ -224,6 +224,26 @@ func until(cond func() bool) bool {
 	return false
 }
 
+// guard runs a call of the implementation that may never return when the implementation is broken; outside a bubble nothing else
+// would notice. A call that has not returned after five seconds is abandoned (reported as code 7 by the caller).
+func (r *runner) guard(f func()) bool {
+	if r.mode != loopMode {
+		f()
+		return true
+	}
+	done := make(chan struct{})
+	go func() {
+		defer close(done)
+		f()
+	}()
+	select {
+	case <-done:
+		return true
+	case <-time.After(5 * time.Second):
+		return false
+	}
+}
+
 func newLoopRunner(backlog, fk, batch int) *runner {
 	r := &runner{mode: loopMode, batch: batch}
 	udp.VListenUDPHook = func(network string, laddr *net.UDPAddr) (udp.VerifPacketConn, error) {
@@ -371,7 +391,11 @@ func (r *runner) exec1(op []string) []string {
 		if udp.VerifQueued(r.l) == 0 && !r.lcl && !r.sockClosed() {
 			return []string{"3", r.sock()} // would block: not issued
 		}
-		c, err := r.l.Accept()
+		var c net.Conn
+		var err error
+		if !r.guard(func() { c, err = r.l.Accept() }) {
+			return []string{"7"}
+		}
 		r.wait()
 		if err != nil {
 			return []string{"2", r.sock()}
@@ -397,7 +421,11 @@ func (r *runner) exec1(op []string) []string {
 			return []string{"3", "0", r.sock()}
 		}
 		buf := make([]byte, k)
-		n, err := c.Read(buf)
+		var n int
+		var err error
+		if !r.guard(func() { n, err = c.Read(buf) }) {
+			return []string{"7"}
+		}
 		cls := "0"
 		switch {
 		case err == nil:
@@ -419,13 +447,17 @@ func (r *runner) exec1(op []string) []string {
 			if r.remoteOf(r.conns[id].RemoteAddr()) != r.rem[id] {
 				return []string{"8", r.sock()}
 			}
-			_ = r.conns[id].Close()
+			if !r.guard(func() { _ = r.conns[id].Close() }) {
+				return []string{"7"}
+			}
 			r.closed[id] = true
 			r.wait()
 		}
 		return []string{r.sock()}
 	default:
-		_ = r.l.Close()
+		if !r.guard(func() { _ = r.l.Close() }) {
+			return []string{"7"}
+		}
 		r.lcl = true
 		r.wait()
 		return []string{r.sock()}
@@ -439,17 +471,21 @@ func (r *runner) wait() {
 		synctest.Wait()
 		return
 	}
-	if r.allClosed() {
-		until(r.sockClosed)
+	if r.allClosed() && !until(r.sockClosed) && !r.broken {
+		// the socket outlives everything: reported through the observation; do not wait five seconds again and again
+		r.broken = true
+		brokenHistories++
 	}
 }
 
 func (r *runner) finish() {
 	if r.mode == loopMode {
-		_ = r.l.Close()
-		for _, c := range r.conns {
-			_ = c.Close()
-		}
+		r.guard(func() {
+			_ = r.l.Close()
+			for _, c := range r.conns {
+				_ = c.Close()
+			}
+		})
 		until(r.sockClosed)
 		for _, c := range r.rs {
 			_ = c.Close()
